@@ -246,3 +246,38 @@ Proof.
   - inversion H; subst b. assert (a = 0) by lia. subst a. cbn. split; [reflexivity|]. lia.
   - destruct (1 =? a) eqn:E1; [|discriminate]. inversion H; subst b. assert (a = 1) by lia. subst a. cbn. split; [reflexivity|]. lia.
 Qed.
+
+(* ---- bounds (Proofs/StepMapBounds.v) ---- *)
+From PM Require Import Proofs.StepMapBounds.
+
+(* mapping is monotone in the association side too: the left-associated image never lies after the right-associated one *)
+Theorem C08_map_assoc_monotone : forall m p a b, wf_map m -> a <= b -> map m p a <= map m p b.
+Proof. exact map_assoc_mono. Qed.
+Print Assumptions C08_map_assoc_monotone.
+
+(* a well-formed map never sends a document position below 0 *)
+Theorem C08_map_nonnegative : forall m p a, wf_map m -> 0 <= p -> 0 <= map m p a.
+Proof. exact map_nonneg. Qed.
+Print Assumptions C08_map_nonnegative.
+
+(* the two sides differ by at most the inserted size of one range *)
+Theorem C08_map_assoc_gap : forall rs p a b,
+  wf_ranges 0 rs ->
+  map {| ranges := rs; inverted := false |} p b - map {| ranges := rs; inverted := false |} p a <= max_new rs.
+Proof. exact map_assoc_gap. Qed.
+Print Assumptions C08_map_assoc_gap.
+
+(* away from every range the side plays no part *)
+Theorem C08_map_outside_side_independent : forall pre post p a b,
+  all_before pre p ->
+  (match post with [] => True | (s, _, _) :: _ => p < s end) ->
+  map {| ranges := pre ++ post; inverted := false |} p a = map {| ranges := pre ++ post; inverted := false |} p b.
+Proof. exact map_outside_side_independent. Qed.
+Print Assumptions C08_map_outside_side_independent.
+
+(* not vacuous: a two-range map is well formed, and the gap bound is attained at an insertion point *)
+Example C08_bounds_example :
+  wf_map {| ranges := [(2, 0, 3); (5, 2, 1)]; inverted := false |} /\
+  map {| ranges := [(2, 0, 3); (5, 2, 1)]; inverted := false |} 2 1 -
+  map {| ranges := [(2, 0, 3); (5, 2, 1)]; inverted := false |} 2 (-1) = max_new [(2, 0, 3); (5, 2, 1)].
+Proof. split; [unfold wf_map; simpl; lia | vm_compute; reflexivity]. Qed.
